@@ -1038,6 +1038,18 @@ func init() {
 		x.spawn(fr, args[0], nil)
 		return nil
 	})
+	rt("WaitUntil", func(x *Exec, fr *frame, args []Value) Value {
+		pred := args[0]
+		x.schedPoint()
+		x.blockUntil(func() bool {
+			r := x.call(fr, pred, nil).(*Term)
+			if !r.IsConst() {
+				panic(unsupported{"verifrt.WaitUntil: predicate must be concrete"})
+			}
+			return r.C != 0
+		}, "verifrt.WaitUntil")
+		return nil
+	})
 	rt("Yield", func(x *Exec, fr *frame, args []Value) Value { x.schedPoint(); return nil })
 	rt("ClockConcrete", func(x *Exec, fr *frame, args []Value) Value { x.clockConcrete = true; return nil })
 	rt("ClockStrict", func(x *Exec, fr *frame, args []Value) Value { x.clockStrict = true; return nil })
